@@ -1,6 +1,7 @@
 package props
 
 import (
+	"fmt"
 	"strings"
 	"sync"
 
@@ -308,7 +309,85 @@ func c03Check(c *core.Ctx, idx int, pattern string, enumerated bool) {
 		}
 		c.Event("second_use_rechecks_after_churn", 6)
 	}
+	if c03Checked%48 == 0 && len(c03Seen) >= 8 {
+		c03Concurrent(c)
+	}
 	c03CheckOne(c, idx, pattern, enumerated)
+}
+
+// c03Concurrent compiles different rules for the first time at the same
+// moment in different goroutines (each rule object is used by one goroutine
+// only), as the workers of a server do after loading lists: what a pattern
+// compiles to does not depend on what is being compiled next to it.
+func c03Concurrent(c *core.Ctx) {
+	const g = 8
+	for round := 0; round < 12; round++ {
+		var texts [g]string
+		var seq, conc [g]string
+		var rs [g]*rules.NetworkRule
+		n, tries := 0, 0
+		for n < g {
+			p := c03Seen[c.Rng.Intn(len(c03Seen))]
+			if len(p) > 1 && p[0] == '/' && p[len(p)-1] == '/' {
+				if tries++; tries > 200 {
+					return
+				}
+
+				continue
+			}
+			t := p + "$domain=example.org"
+			r1, err1 := rules.NewNetworkRule(t, 1)
+			r2, err2 := rules.NewNetworkRule(t, 1)
+			if err1 != nil || err2 != nil || r1.IsRegexRule() {
+				if tries++; tries > 200 {
+					return
+				}
+
+				continue
+			}
+			texts[n] = t
+			re, st := rules.VerifPrepared(r1)
+			seq[n] = fmt.Sprint(st)
+			if re != nil {
+				seq[n] += " " + re.String()
+			}
+			rs[n] = r2
+			n++
+		}
+		start := make(chan struct{})
+		var wg sync.WaitGroup
+		panicked := make([]any, g)
+		for i := 0; i < g; i++ {
+			wg.Add(1)
+			go func(i int) {
+				defer wg.Done()
+				defer func() { panicked[i] = recover() }()
+				<-start
+				re, st := rules.VerifPrepared(rs[i])
+				conc[i] = fmt.Sprint(st)
+				if re != nil {
+					conc[i] += " " + re.String()
+				}
+			}(i)
+		}
+		close(start)
+		wg.Wait()
+		c.Eval(g)
+		c.Event("first_compiles_side_by_side", g)
+		for i := 0; i < g; i++ {
+			if panicked[i] != nil {
+				c.Violation("panic:concurrent-first-compile", nil, map[string]any{"rules": texts[:]}, "panic while %q is compiled next to %q: %v", texts[i], texts[:], panicked[i])
+
+				return
+			}
+			if conc[i] != seq[i] {
+				c.Violation("compiled-differently-next-to-other-rules", nil, map[string]any{"rule": texts[i], "alone": seq[i], "side_by_side": conc[i], "others": texts[:]},
+					"rule %q compiles to %q alone and to %q when %d other rules are compiled at the same time", texts[i], seq[i], conc[i], g-1)
+
+				return
+			}
+		}
+	}
 }
 
 func c03CheckOne(c *core.Ctx, idx int, pattern string, enumerated bool) {
@@ -506,6 +585,7 @@ func init() {
 		Level: "exploration",
 		Rule: "patterns: every token string of length 1..3 (thorough: 1..4) over the 20 tokens {a B . / ? + ( ) [ ] { } \\ $ ^ * | - % :}, also ||-prefixed, /*-suffixed and pipe-wrapped forms, plus PRNG-sampled longer patterns and the distinct mask patterns of the three bundled real lists (quick 2500, thorough 30000 of them, strings up to length 3 plus witnesses); " +
 			"strings: per pattern all strings up to length 4 (thorough 5) over the pattern's own characters in both cases plus one unrelated letter, '/', '.', wrapped in 4..12 scheme/subdomain prefixes, plus witnesses walked from the pattern and their one-edit neighbours (those also through NetworkRule.Match); " +
+			"every 48 patterns, 12 rounds of 8 remembered patterns compiled for the first time side by side in 8 goroutines (each compiles to what it compiles to alone); " +
 			"oracle = hand-written token matcher vs. the rule's own compiled regexp (hook VerifPrepared); non-trivial = pattern for which the reference accepts some but not all strings; distinct by (pattern, match-case)",
 		Assumptions: []string{
 			"space is excluded from strings (the prose and the implementations disagree on whether it is a separator)",
